@@ -246,7 +246,9 @@ def run_case(case, ctx):
         obj = (w.copy(), [f.copy() for f in factors])
         if wrapper:
             obj = cpm.CPTensor(obj)
-        out = cpm.cp_flip_sign(obj, mode=mode, func=func)
+        negm = bool(rs.rand() < 0.3)     # the receiving mode counted from the end
+        desc["negative_mode"] = negm
+        out = cpm.cp_flip_sign(obj, mode=(mode - order if negm else mode), func=func)
         ow, of = out
         after, _, _ = ref.cp_dense(ow, of)
         dense_check(cls, after, before, scale, desc)
@@ -304,11 +306,15 @@ def run_case(case, ctx):
         cls = ("vector" if vec else "matrix") + ("+keep_dim" if (keep_dim and vec) else "") + ("" if wrapper else "+tuple") + ("" if copy else "+inplace") + \
               ("" if okind == "same" else "+" + okind + "-operand")
         fn = cpm.cp_mode_dot if g == "cp_mode_dot" else tkm.tucker_mode_dot
+        mode_arg = mode
+        if rs.rand() < 0.25:
+            mode_arg = mode - order
+            cls += "+negmode"
         try:
             if via_method:
-                out = obj.mode_dot(M, mode, keep_dim=keep_dim, copy=copy)
+                out = obj.mode_dot(M, mode_arg, keep_dim=keep_dim, copy=copy)
             else:
-                out = fn(obj, M, mode, keep_dim=keep_dim, copy=copy)
+                out = fn(obj, M, mode_arg, keep_dim=keep_dim, copy=copy)
         except Exception as e:  # noqa
             viol("raises-%s" % type(e).__name__, cls, "%s raised %s: %s" % (g, type(e).__name__, str(e)[:200]), desc)
             return
@@ -343,8 +349,13 @@ def run_case(case, ctx):
         else:
             ranks[0] = ranks[-1] = 1
         cores = [gen.arr(rs, [ranks[k], shp[k], ranks[k + 1]], dt) for k in range(order)]
+        mixed = bool(rs.rand() < 0.25)
+        if mixed:
+            # cores of different dtypes (an integer selection core, a real boundary core of a complex train): each core keeps its own
+            k0 = int(rs.randint(order))
+            cores[k0] = gen.arr(rs, cores[k0].shape, "float64", "int").astype(np.int64) if rs.rand() < 0.5 else gen.arr(rs, cores[k0].shape, "float32")
         npad = int(rs.randint(0, 4))
-        desc = {"shape": shp, "rank": ranks, "ring": ring, "n_padding": npad, "dtype": dt}
+        desc = {"shape": shp, "rank": ranks, "ring": ring, "n_padding": npad, "dtype": dt, "mixed_core_dtypes": mixed}
         out = ttm.pad_tt_rank(list(cores), n_padding=npad, pad_boundaries=ring)
         if ring:
             before, absb, _ = ref.tr_dense(cores)
@@ -358,7 +369,7 @@ def run_case(case, ctx):
         exp_r = [r + npad for r in ranks]
         if not ring:
             exp_r[0] = exp_r[-1] = 1
-        if got_r != exp_r or [o.shape[1] for o in out] != shp or any(o.dtype != np.dtype(dt) for o in out):
+        if got_r != exp_r or [o.shape[1] for o in out] != shp or any(o.dtype != c.dtype for o, c in zip(out, cores)):
             viol("canonical-form", "ring" if ring else "tt", "padded ranks %s, expected %s" % (got_r, exp_r), desc)
         if npad:
             ctx.nontriv(desc)
